@@ -348,7 +348,7 @@ Section Frame.
     (j < List.length (pl w))%nat -> target o <> Some j ->
     nth j (pl (fst (stepi w o))) (Run.dummy, dummy_it) = nth j (pl w) (Run.dummy, dummy_it).
   Proof.
-    intros Hj Ht. destruct o as [o|i p1 p2|i p].
+    intros Hj Ht. destruct o as [o|i p1 p2|i p md].
     - destruct o; cbn [stepi target] in *.
       + unfold push. destruct (fresh_like a (nxt w)). simpl. apply nth_app_old. exact Hj.
       + unfold geti. destruct (nth i (pl w) (Run.dummy, dummy_it)) as [a t].
